@@ -19,6 +19,7 @@ from clvm import ser, to_list, canon, tree_hash, coin_id, hexo
 
 UNIT = "gen"
 BLOCK = 11000000000
+SMALL_LIMIT = 60000000
 F = {"DONT_VALIDATE_SIGNATURE": 0x10000, "NO_UNKNOWN_CONDS": 0x20000, "STRICT_ARGS_COUNT": 0x80000,
      "COST_CONDITIONS": 0x800000, "SIMPLE_GENERATOR": 0x1000000, "LIMIT_SPENDS": 0x2000000,
      "INTERNED_GENERATOR": 0x8000000}
@@ -147,10 +148,13 @@ class Env:
         return (to_list([self.spend_tree(s) for s in spends], term), outer_rest)
 
     # ------------------------------------------------------------ output-shape mutations
-    def mutate_shape(self, spends):
+    N_SHAPES = 18
+
+    def mutate_shape(self, spends, k=None):
         """returns (output tree, tag)"""
         r = self.rng
-        k = r.below(22)
+        if k is None:
+            k = r.below(22)
         tag = "shape%d" % k
         sp = [dict(s) for s in spends]
         i = r.below(len(sp)) if sp else 0
@@ -276,6 +280,17 @@ class Env:
         return b"\xfe\x01", "backref-root"
 
     # ------------------------------------------------------------ cases
+    def shape_case(self, k):
+        """a valid quoted spend list with exactly the k-th output-shape mutation applied"""
+        r = self.rng
+        spends, scen, mode = self.spends(scen=r.choice(["single", "multi", "fees", "locks"]), mode=r.choice(["quote", "pool"]))
+        if k in (9, 13) and len(spends) < 2:
+            spends, scen, mode = self.spends(scen="multi", mode=mode)
+        out, t = self.mutate_shape(spends, k)
+        flags = self.flags(quoted=True) & ~(F["NO_UNKNOWN_CONDS"] | F["STRICT_ARGS_COUNT"])
+        return {"program": self.quoted(out), "refs": [], "flags": flags, "max_cost": BLOCK, "kind": "shape",
+                "tags": [("scen", scen), ("puzzles", mode), ("shape", t)]}
+
     def case(self, want_valid=False, memo=None):
         r = self.rng
         spends, scen, mode = self.spends(memo=memo, scen=(r.choice(["single", "multi", "fees", "locks", "aggsig", "announce"]) if want_valid else None),
@@ -311,7 +326,20 @@ class Env:
         for s in spends:
             for t in s["tags"]:
                 tags.append(t)
-        return {"program": program, "refs": refs, "flags": flags, "max_cost": max_cost, "kind": kind, "tags": tags}
+        c = {"program": program, "refs": refs, "flags": flags, "max_cost": max_cost, "kind": kind, "tags": tags}
+        if kind in ("proc", "bytes"):
+            # arbitrary programs may loop: keep the interpreter work per case small (both real paths, the ROM and
+            # the oracle recording all run them to the limit)
+            c["max_cost"] = min(max_cost, SMALL_LIMIT)
+            c["budget"] = SMALL_LIMIT
+        return c
+
+
+# corpus files that are small AND cheap to evaluate (measured: < 1 s for both real paths); the quick tier uses these
+QUICK_FILES = ["just-puzzle-announce", "create-coin-hint", "create-coin-hint2", "infinity-g1", "create-coin-hint-duplicate-outputs",
+               "invalid-conditions", "multiple-reserve-fee", "create-coin-different-amounts", "max-height",
+               "assert-puzzle-announce-fail", "infinite-recursion1", "infinite-recursion2", "duplicate-height-absolute-div",
+               "unknown-condition", "non-quote-0001-start", "new-agg-sigs", "double-spend", "duplicate-outputs"]
 
 
 def file_cases(tier, env, limit_bytes):
@@ -319,6 +347,8 @@ def file_cases(tier, env, limit_bytes):
     out = []
     for p in sorted(glob.glob(C.REPO + "/generator-tests/*.txt")):
         name = os.path.basename(p)[:-4]
+        if tier == "quick" and name not in QUICK_FILES:
+            continue
         txt = open(p).read()
         if "\n" not in txt:
             continue
@@ -340,7 +370,10 @@ def file_cases(tier, env, limit_bytes):
 
 
 def budget_of(c):
-    return max(BLOCK, c["max_cost"]) if c["max_cost"] < 2 ** 62 else c["max_cost"]
+    """the budget the run-oracle table is recorded with: at least every budget the case's runs can use"""
+    if "budget" in c:
+        return max(c["budget"], c["max_cost"]) if c["max_cost"] <= SMALL_LIMIT else c["max_cost"]
+    return max(BLOCK, c["max_cost"])
 
 
 def base_line(c):
